@@ -206,6 +206,7 @@ class C22(Check):
         outcomes = {}     # frozenset(trail lits) for SAT / attempted set for UNSAT -> list of (outcome, step)
         cur_unsat = None
         attempted = []
+        seen_conflicts = set()
         bump(res, 'F-assertion-orders', 0)
         for e in log:
             if e.get('ev') != 't-step':
@@ -218,6 +219,21 @@ class C22(Check):
             if e['res'] == 'UNSAT' and cur_unsat is None:
                 cur_unsat = (e['i'], list(e['trail']))
                 bump(res, 'verdict:UNSAT')
+                # the reported conflict set must be a subset of the trail and theory-unsatisfiable by itself (distinct sets only)
+                if e.get('conflict_off_trail'):
+                    res['violations'].append({'cls': 'stale-literal-in-conflict', 'sig': {'logic': case['logic']}, 'detail': {'step': e['i'], 'trail': lits(e['trail']), 'conflict': e['conflict']}})
+                    return res
+                cs = frozenset(e.get('conflict') or [])
+                if cs and 0 not in cs and cs not in seen_conflicts and len(seen_conflicts) < 12:
+                    seen_conflicts.add(cs)
+                    try:
+                        t = ctx.refs.truth(prelude, lits(sorted((-x for x in cs), key=abs)))
+                    except RefError:
+                        t = None
+                    if t == 'sat':
+                        res['violations'].append({'cls': 'reported-conflict-satisfiable', 'sig': {'logic': case['logic']},
+                                                  'detail': {'step': e['i'], 'conflict_set': lits(sorted((-x for x in cs), key=abs)), 'trail': lits(e['trail']), 'refs': ctx.refs.last_raw}})
+                        return res
             if e['op'] == 'check-complete':
                 if e['res'] == 'SAT' and cur_unsat is None and e.get('splits', 0) == 0:
                     bump(res, 'verdict:SAT')
